@@ -47,6 +47,8 @@ def check(tier, seed):
         C.props_obligations(res, 'C14', wd)
         C.tie_b_kernels(res, wd, ('cfgkeys',))
         C.tie_b_cfgobj(res, wd)
+        from .. import primcheck
+        primcheck.run(res, wd)
         from .. import reflect
         kt = reflect.key_tables()
         sk = ','.join(str(k) for k in kt['signed']) or '-'
